@@ -54,6 +54,8 @@ def unlift(v):
         return tuple(items)
     if isinstance(v, VConst):
         return v.obj
+    if type(v).__name__ == 'VSegs' and v.concrete:
+        return b''.join(x[1] for x in v.segs)
     if type(v).__name__ == 'VChars' and v.concrete:
         r = ''.join(chr(c) for c in v.codes)
         return r.encode('latin-1') if v.is_bytes else r
